@@ -64,9 +64,9 @@ both_families! {
 			it
 		};
 		let s = |x: Option<&Segment>| x.map(|s| s.as_str().to_string());
-		for a in 0..8usize {
+		for a in 0..11usize {
 			if let Some(w) = which {
-				if w % 8 != a {
+				if w % 11 != a {
 					continue;
 				}
 			}
@@ -93,6 +93,14 @@ both_families! {
 					let (lo, hi) = fresh().size_hint();
 					let ok = lo <= rest.len() && hi.map(|h| rest.len() <= h).unwrap_or(true);
 					("size_hint()", format!("{}", ok), "true".to_string())
+				}
+				8 => ("fold()", format!("{:?}", fresh().fold(Vec::new(), |mut v, x| { v.push(x.as_str().to_string()); v })), format!("{:?}", rest)),
+				9 => ("rfold()", format!("{:?}", fresh().rfold(Vec::new(), |mut v, x| { v.push(x.as_str().to_string()); v })), format!("{:?}", rest.iter().rev().cloned().collect::<Vec<_>>())),
+				10 => {
+					let (mut f, mut b): (Vec<String>, Vec<String>) = (Vec::new(), Vec::new());
+					let _ = fresh().try_fold((), |(), x| { f.push(x.as_str().to_string()); Some(()) });
+					fresh().rev().for_each(|x| b.push(x.as_str().to_string()));
+					("try_fold() / rev().for_each()", format!("{:?}", (f, b)), format!("{:?}", (rest.clone(), rest.iter().rev().cloned().collect::<Vec<_>>())))
 				}
 				_ => {
 					let mut it = fresh();
